@@ -462,6 +462,7 @@ def _round(number, num_digits, _rounding=decimal.ROUND_HALF_UP):
     number = decimal.Decimal(str(number))
     with decimal.localcontext() as dc:
         dc.rounding = _rounding
+        dc.prec = 700
         ans = round(number, int(num_digits))
     return float(ans)
 
